@@ -26,6 +26,7 @@ RULE = (
     "follow-up history must keep agreeing with dict model + reference root (+ exactness "
     "when pruning). Non-trivial = batch has >=2 effective ops on keys that existed "
     "before the batch and an abort point strictly inside it. Distinct = canonical JSON."
+    ' Added after the seeded rounds: the block is left by Exception / BaseException / KeyboardInterrupt / a falsy exception / a KeyError, and may run inside an except handler; failing commit writes raise one of three exception types; batches also build and destroy identical sub-tries (mirror / twin fragments); some cases run on a write-through dict subclass; fixed very large batches (1500 / 4200 / ... sets); the follow-up history may use sparse look-ups.'
 )
 def exhaustive(tier):
     sizes = (1500, 4200) if tier == "quick" else (1500, 4200, 9000, 20000)
